@@ -50,7 +50,7 @@ fn weird_kind() -> impl Strategy<Value = MKind> {
 }
 
 fn weird_track() -> impl Strategy<Value = MTrack> {
-    (weird_kind(), weird_ts(), weird_lang(), prop::bool::weighted(0.05)).prop_map(|(kind, timescale, language, preset)| MTrack { kind, timescale, language, preset })
+    (weird_kind(), weird_ts(), weird_lang(), prop::bool::weighted(0.05)).prop_map(|(kind, timescale, language, preset)| MTrack { kind, timescale, language, preset, ttype: 0 })
 }
 
 fn weird_op() -> impl Strategy<Value = (u16, u8, u32, u32, i32, bool)> {
@@ -70,8 +70,8 @@ pub fn weird_history() -> impl Strategy<Value = MuxCase> {
         10 => prop::collection::vec(weird_track(), 1..5),
         1 => prop::collection::vec(weird_track(), 30..=100),
     ];
-    (crate::gen::cc_strategy(), any::<u32>(), prop::collection::vec(crate::gen::cc_strategy(), 0..4), weird_ts(), tracks, prop::collection::vec(weird_op(), 0..40), prop::bool::weighted(0.004))
-        .prop_map(|(major, minor, compat, timescale, tracks, raw, huge)| {
+    (crate::gen::cc_strategy(), any::<u32>(), prop::collection::vec(crate::gen::cc_strategy(), 0..4), weird_ts(), tracks, prop::collection::vec(weird_op(), 0..40), prop::bool::weighted(0.004), mux::sink_strategy())
+        .prop_map(|(major, minor, compat, timescale, tracks, raw, huge, sink)| {
             let n = tracks.len() as u32;
             let mut ops: Vec<MOp> = raw
                 .into_iter()
@@ -97,7 +97,7 @@ pub fn weird_history() -> impl Strategy<Value = MuxCase> {
                 ops.truncate(6);
                 ops.push(MOp { track: t, size: (1 << 24) + 3, dur: 1, cts: 0, sync: true });
             }
-            MuxCase { major, minor, compat, timescale, tracks, ops, sink: 0 }
+            MuxCase { major, minor, compat, timescale, tracks, ops, sink }
         })
 }
 
@@ -176,7 +176,7 @@ pub fn run(ctx: &mut Ctx) {
     let mut directed: Vec<MuxCase> = Vec::new();
     let base = |tracks: Vec<MTrack>, ops: Vec<MOp>, ts: u32| MuxCase { major: *b"isom", minor: 0, compat: vec![], timescale: ts, tracks, ops, sink: 0 };
     let op = |track: u32, size: u32, dur: u32| MOp { track, size, dur, cts: 0, sync: true };
-    let tr = |kind: MKind, ts: u32, lang: &str| MTrack { kind, timescale: ts, language: lang.to_string(), preset: false };
+    let tr = |kind: MKind, ts: u32, lang: &str| MTrack { kind, timescale: ts, language: lang.to_string(), preset: false, ttype: 0 };
     directed.push(base(vec![], vec![], 1000));
     directed.push(base(vec![], vec![op(1, 1, 1)], 0));
     for n in 0..5 {
